@@ -7,10 +7,13 @@
    Graph/Cycle.v::active_edges_single_cycle with prim = true, property C06; the native node means
    Cycle.gsem_c06).  No rank / root variables are declared; everything else solve_simpleloop posts is unchanged
    (Simpleloop.v::sl_cell ...; these constraints mention the frame variables and the is_passed variables, whose
-   ids do not move; on a frame without points the Python no longer raises ValueError inside the graph call - but
-   such boards are rejected before the call, see below).  Same error points as
-   Simpleloop.v::solve_simpleloop_model: for height <= 0 or width <= 0 (not both negative) the ValueError comes
-   from Array2D.__init__ (BoolGridFrame of height - 1 = -1 rows) on both routes.
+   ids do not move).
+   Error points: as Simpleloop.v::solve_simpleloop_model, except for boards with height <= 0 AND width <= 0 where
+   one of them is 0: the auxiliary-variable route raises ValueError there (int_array(0, 0, -1) inside the graph
+   call on a frame without points) while the native route runs through the graph call (see
+   CyclePrimCompose.frame_cycle_prim_z), the loops over the cells are empty and is_passed[py, px] raises IndexError
+   (an axis of size <= 0 accepts no index) - the behaviour both routes have for height < 0 and width < 0.
+   Exactly one of height, width <= 0: ValueError from Array2D.__init__, as before.
    Theorem simpleloop_exact_prim: same statement as SimpleloopProofs.simpleloop_exact, for the evaluator gsem_c06;
    the graph side is CyclePrimCompose.cycle_frame_prim_compose. *)
 From Coq Require Import ZArith List Bool Arith Lia.
@@ -26,7 +29,7 @@ Definition solve_simpleloop_model_prim (pb : problem) : res state :=
   let pyz := getz (sec pb 0) 2 in let pxz := getz (sec pb 0) 3 in
   let h := dim pb 0 in let w := dim pb 1 in
   let blocked := sec pb 1 in
-  if ((hz <? 0) && (wz <? 0))%Z then Err IndexError
+  if ((hz <=? 0) && (wz <=? 0))%Z then Err IndexError
   else if ((hz <=? 0) || (wz <=? 0))%Z then Err ValueError
   else
   match frame_cycle_prim (h - 1) (w - 1) with
@@ -82,8 +85,8 @@ Proof.
   change (getz (sec pb 0) 0) with (Z.of_nat (S h)). change (getz (sec pb 0) 1) with (Z.of_nat (S w)).
   change (getz (sec pb 0) 2) with (Z.of_nat py). change (getz (sec pb 0) 3) with (Z.of_nat px).
   destruct (sl_dims (S h) (S w) py px [blocked]) as [E0 [E1 _]]. fold pb in E0, E1. rewrite E0, E1.
-  replace ((Z.of_nat (S h) <? 0) && (Z.of_nat (S w) <? 0))%Z with false
-    by (symmetry; apply andb_false_iff; left; apply Z.ltb_ge; lia).
+  replace ((Z.of_nat (S h) <=? 0) && (Z.of_nat (S w) <=? 0))%Z with false
+    by (symmetry; apply andb_false_iff; left; apply Z.leb_gt; lia).
   replace ((Z.of_nat (S h) <=? 0) || (Z.of_nat (S w) <=? 0))%Z with false
     by (symmetry; apply orb_false_iff; split; apply Z.leb_gt; lia).
   replace (S h - 1) with h by lia. replace (S w - 1) with w by lia. rewrite Hc.
@@ -108,7 +111,7 @@ Proof.
   change (getz (sec pb 0) 0) with (Z.of_nat h). change (getz (sec pb 0) 1) with (Z.of_nat w).
   change (getz (sec pb 0) 2) with (Z.of_nat py). change (getz (sec pb 0) 3) with (Z.of_nat px).
   destruct (sl_dims h w py px [blocked]) as [E0 [E1 _]]. fold pb in E0, E1. rewrite E0, E1.
-  destruct ((Z.of_nat h <? 0) && (Z.of_nat w <? 0))%Z; [discriminate|].
+  destruct ((Z.of_nat h <=? 0) && (Z.of_nat w <=? 0))%Z; [discriminate|].
   destruct ((Z.of_nat h <=? 0) || (Z.of_nat w <=? 0))%Z eqn:Ez; [discriminate|].
   apply orb_false_iff in Ez. destruct Ez as [Eh Ew]. apply Z.leb_gt in Eh. apply Z.leb_gt in Ew.
   destruct h as [|h]; [lia|]. destruct w as [|w]; [lia|].
